@@ -653,9 +653,9 @@ func describeShallow(v ssa.Value, d func(ssa.Value) string) string {
 	case *ssa.MakeSlice:
 		return "make(" + types.TypeString(x.Type(), shortQual) + "," + d(x.Len) + ")"
 	case *ssa.MakeMap:
-		return "makemap"
+		return "makemap#" + x.Name()
 	case *ssa.MakeChan:
-		return "makechan"
+		return "makechan#" + x.Name()
 	case *ssa.Next:
 		return "next(" + d(x.Iter) + ")"
 	case *ssa.Range:
